@@ -585,7 +585,8 @@ def history_polls(rng, nhist):
                 nd["rlimit"] = rng.choice([0, 1, 2, 3, 3]) if nd["has_restart"] else 0
             cfg = {"throttle": rng.choice([0, 0, 1, 2]), "attempts": rng.choice([1, 1, 2]), "dry": False}
             profile = rng.choice(["timeout", "hw", "timeout", "hw", "mixed"])
-            kw = {"cancel_p": 0.0, "qerr_p": 0.0, "qnojobs_p": 0.03, "sub_ok_p": 0.95}
+            # one in four with frequently REFUSED submissions (restart refused on every attempt)
+            kw = {"cancel_p": 0.0, "qerr_p": 0.0, "qnojobs_p": 0.03, "sub_ok_p": rng.choice([0.95, 0.95, 0.95, 0.4])}
             max_polls = rng.choice([8, 12, 16])
         else:
             shape, nodes = XH.gen_graph(rng, nmax=7)
